@@ -128,7 +128,11 @@ func NewFrontend(logic frontend.TrackerLogic, provided Config) (*Frontend, error
 		return nil, err
 	}
 
+	// The serving goroutine is accounted for before it is started, so that a
+	// Stop right after NewFrontend waits for it too.
+	f.wg.Add(1)
 	go func() {
+		defer f.wg.Done()
 		if err := f.serve(); err != nil {
 			log.Fatal("failed while serving udp", log.Err(err))
 		}
@@ -170,9 +174,6 @@ func (t *Frontend) listen() error {
 // until Stop() is called or an error is returned.
 func (t *Frontend) serve() error {
 	pool := bytepool.New(2048)
-
-	t.wg.Add(1)
-	defer t.wg.Done()
 
 	for {
 		// Check to see if we need to shutdown.
